@@ -116,6 +116,21 @@ CLAIMED["C05"] = dict(
          "prefix operators only where a (sub)expression starts (the implementation rejects 'a + ~b' with an error).",
 )
 
+CLAIMED["C17"] = dict(
+    text="Theorems for every text and position about the model of Context.__repr__: the count/rfind formula equals a left-to-right scan "
+         "with a tab counting four columns (induction over the prefix), positions are monotone in (line, column) so start <= end prints with "
+         "start not after end, the line is within the file's line count and line/column start at 1. Tie: Context.__repr__ on random texts "
+         "with tabs, CR and non-ASCII against the model; 35 fault kinds planted after random filler (tabs, non-ASCII comments) in the main "
+         "file, a second linked file and an included file: the first error report must name that file and start at the planted token "
+         "(scan position), every location of every report must lie inside its file with start <= end, and the bare format must print the "
+         "same line:column.",
+    design_ref="DESIGN.md §5 C17",
+    technique="Lean 4 theorems (induction on the text prefix) + model/implementation correspondence + planted-fault oracle",
+    note=NOTE + "Which token the implementation blames for a fault is not proved: it is checked per fault kind against the expectation frozen in "
+         "harness/p_c17.py (the token a reader would call the culprit; for statement-level faults the statement start). Token spans of the "
+         "parser are additionally compared with the transliterated Lean parser (C10 check).",
+)
+
 PENDING_REASON = "check not built yet (build in progress; see DESIGN.md §8 for the order)"
 
 
